@@ -5,6 +5,8 @@ package c11
 
 import (
 	"bytes"
+	"crypto/tls"
+	"crypto/x509"
 	"fmt"
 	"io"
 	"net"
@@ -47,7 +49,11 @@ var rec *ev.Recorder
 func TestMain(m *testing.M) {
 	glue.SilenceKlog()
 	glue.LoadRegistry()
+	fields()
 	if rp := ev.LoadReplay(); rp != nil {
+		if rp.Phase == "long_lived_session" {
+			ev.RunReplay(rp, runLong)
+		}
 		if rp.Phase == "two_connections" {
 			ev.RunReplay(rp, runCase2)
 		}
@@ -56,7 +62,7 @@ func TestMain(m *testing.M) {
 		}
 		ev.RunReplay(rp, func(c Case) *ev.Failure { return runCase(c, nil) })
 	}
-	rec = ev.New("C11", "streams of 1..6 messages built by the reference codec (templates; data sets of 1..n records, 20 bytes to ~65 KiB; optionally one invalid message - wrong version, data without template, undecodable template, header length < 20 or 0 - at any position; optionally an incomplete message at the end) x segmentations of the concatenated stream, presented to the collector's TCP connection handler through an in-memory connection whose Read returns exactly the generated segments: every single cut and every pair of cuts of short streams exhaustively, random multi-cuts (1-byte dribble, cuts inside the 4-byte length peek, cuts at message boundaries, coalesced) beyond; a second connection must then still be served; non-trivial = at least 2 messages and a cut strictly inside a message; distinct by hash of the case",
+	rec = ev.New("C11", "streams of 1..6 messages built by the reference codec (templates; data sets of 1..n records, 20 bytes to ~65 KiB; optionally one invalid message - wrong version, data without template, undecodable template, header length < 20 or 0 - at any position; optionally an incomplete message at the end) x segmentations of the concatenated stream, presented to the collector's TCP connection handler through an in-memory connection whose Read returns exactly the generated segments: every single cut and every pair of cuts of short streams exhaustively, random multi-cuts (1-byte dribble, cuts inside the 4-byte length peek, cuts at message boundaries, coalesced) beyond; a second connection must then still be served; long-lived real connections (plain and TLS) whose stream pauses 6 s (thorough: up to 65 s) in the middle of a message; non-trivial = at least 2 messages and a cut strictly inside a message; distinct by hash of the case",
 		"reference codec refipfix", "verif hook VerifHandleTCPClient (a plain call of handleTCPClient)", "an in-memory net.Conn stands for the socket; real-socket delivery is exercised by C01/C12")
 	code := m.Run()
 	rec.Write()
@@ -190,12 +196,22 @@ func (c *chunkConn) Read(p []byte) (int, error) {
 	c.reads++
 	return n, nil
 }
-func (c *chunkConn) Write(p []byte) (int, error)      { return len(p), nil }
-func (c *chunkConn) Close() error                     { c.mu.Lock(); c.closed = true; c.mu.Unlock(); return nil }
-func (c *chunkConn) isClosed() bool                   { c.mu.Lock(); defer c.mu.Unlock(); return c.closed }
-func (c *chunkConn) left() int                        { c.mu.Lock(); defer c.mu.Unlock(); n := 0; for _, x := range c.chunks { n += len(x) }; return n }
-func (c *chunkConn) LocalAddr() net.Addr              { return &net.TCPAddr{IP: net.IPv4(127, 0, 0, 1), Port: 4739} }
-func (c *chunkConn) RemoteAddr() net.Addr             { return &net.TCPAddr{IP: net.IPv4(127, 0, 0, 1), Port: 40000} }
+func (c *chunkConn) Write(p []byte) (int, error) { return len(p), nil }
+func (c *chunkConn) Close() error                { c.mu.Lock(); c.closed = true; c.mu.Unlock(); return nil }
+func (c *chunkConn) isClosed() bool              { c.mu.Lock(); defer c.mu.Unlock(); return c.closed }
+func (c *chunkConn) left() int {
+	c.mu.Lock()
+	defer c.mu.Unlock()
+	n := 0
+	for _, x := range c.chunks {
+		n += len(x)
+	}
+	return n
+}
+func (c *chunkConn) LocalAddr() net.Addr { return &net.TCPAddr{IP: net.IPv4(127, 0, 0, 1), Port: 4739} }
+func (c *chunkConn) RemoteAddr() net.Addr {
+	return &net.TCPAddr{IP: net.IPv4(127, 0, 0, 1), Port: 40000}
+}
 func (c *chunkConn) SetDeadline(time.Time) error      { return nil }
 func (c *chunkConn) SetReadDeadline(time.Time) error  { return nil }
 func (c *chunkConn) SetWriteDeadline(time.Time) error { return nil }
@@ -586,7 +602,138 @@ func runRecorded(phase string, c Case) *ev.Failure {
 	return f
 }
 
+// LongCase: one real connection (plain or TLS) whose stream pauses for PauseS seconds in the
+// middle of a message; nothing in the statement lets the collector give up on a slow stream.
+type LongCase struct {
+	TLS    bool `json:"tls"`
+	PauseS int  `json:"pause_s"`
+}
+
+var (
+	longCA   *glue.CA
+	longCert glue.Leaf
+)
+
+func runLong(c LongCase) *ev.Failure {
+	if longCA == nil {
+		longCA = glue.NewCA("verif CA")
+		longCert = longCA.LoopbackServer()
+	}
+	in := collector.CollectorInput{Address: "127.0.0.1:0", Protocol: "tcp", MaxBufferSize: 65535}
+	if c.TLS {
+		in.IsEncrypted, in.ServerCert, in.ServerKey = true, longCert.CertPEM, longCert.KeyPEM
+	}
+	cp, err := collector.InitCollectingProcess(in)
+	if err != nil {
+		return ev.Failf("InitCollectingProcess: %v", err)
+	}
+	go cp.Start()
+	for i := 0; i < 3000 && cp.GetAddress() == nil; i++ {
+		time.Sleep(time.Millisecond)
+	}
+	if cp.GetAddress() == nil {
+		return nil
+	}
+	var mu sync.Mutex
+	var got []*entities.Message
+	stopDrain, drained := make(chan struct{}), make(chan struct{})
+	go func() {
+		defer close(drained)
+		for {
+			select {
+			case m := <-cp.GetMsgChan():
+				mu.Lock()
+				got = append(got, m)
+				mu.Unlock()
+			case <-stopDrain:
+				return
+			}
+		}
+	}()
+	defer func() { cp.Stop(); close(stopDrain); <-drained }()
+	var conn net.Conn
+	if c.TLS {
+		roots := x509.NewCertPool()
+		roots.AppendCertsFromPEM(longCA.CertPEM)
+		conn, err = tls.Dial("tcp", cp.GetAddress().String(), &tls.Config{RootCAs: roots, ServerName: "localhost"})
+	} else {
+		conn, err = net.Dial("tcp", cp.GetAddress().String())
+	}
+	if err != nil {
+		return nil // environment
+	}
+	defer conn.Close()
+	f := fields()[0]
+	rec1 := [][]ref.Value{{{B: []byte{10, 0, 0, 1}}, {U: 6}}}
+	msgs := [][]byte{
+		ref.TemplateMessage(ref.Header{Domain: 5, Seq: 0}, ref.Template{ID: 256, Fields: f}),
+		ref.DataMessage(ref.Header{Domain: 5, Seq: 0}, ref.Template{ID: 256, Fields: f}, rec1),
+		ref.DataMessage(ref.Header{Domain: 5, Seq: 1}, ref.Template{ID: 256, Fields: f}, rec1),
+		ref.DataMessage(ref.Header{Domain: 5, Seq: 2}, ref.Template{ID: 256, Fields: f}, rec1),
+	}
+	w := func(b []byte) *ev.Failure {
+		if _, err := conn.Write(b); err != nil {
+			return ev.Failf("the collector closed a healthy connection (%s, %d s pause inside a message): write failed: %v", map[bool]string{true: "tls", false: "tcp"}[c.TLS], c.PauseS, err)
+		}
+		return nil
+	}
+	for _, b := range [][]byte{msgs[0], msgs[1], msgs[2][:9]} {
+		if fl := w(b); fl != nil {
+			return fl
+		}
+	}
+	time.Sleep(time.Duration(c.PauseS) * time.Second)
+	for _, b := range [][]byte{msgs[2][9:], msgs[3]} {
+		if fl := w(b); fl != nil {
+			return fl
+		}
+	}
+	for end := time.Now().Add(20 * time.Second); time.Now().Before(end); time.Sleep(2 * time.Millisecond) {
+		mu.Lock()
+		n := len(got)
+		mu.Unlock()
+		if n >= len(msgs) {
+			break
+		}
+	}
+	mu.Lock()
+	defer mu.Unlock()
+	if len(got) != len(msgs) {
+		return ev.Failf("%d of %d messages delivered from a %s connection whose stream paused %d s in the middle of message 2", len(got), len(msgs), map[bool]string{true: "tls", false: "tcp"}[c.TLS], c.PauseS)
+	}
+	for k, m := range got {
+		if m.GetSequenceNum() != []uint32{0, 0, 1, 2}[k] {
+			return ev.Failf("message %d delivered with sequence number %d", k, m.GetSequenceNum())
+		}
+	}
+	return nil
+}
+
 func TestC11(t *testing.T) {
+	// long-lived sessions run beside everything else (they mostly sleep)
+	longCases := []LongCase{{TLS: true, PauseS: 6}, {TLS: false, PauseS: 6}}
+	if rec.Thorough() && ev.Shard() <= 1 {
+		longCases = append(longCases, LongCase{TLS: true, PauseS: 12}, LongCase{TLS: true, PauseS: 35}, LongCase{TLS: false, PauseS: 35}, LongCase{TLS: true, PauseS: 65})
+	}
+	longFails := make([]*ev.Failure, len(longCases))
+	var lw sync.WaitGroup
+	longCA = glue.NewCA("verif CA")
+	longCert = longCA.LoopbackServer()
+	for k := range longCases {
+		lw.Add(1)
+		go func(k int) { defer lw.Done(); longFails[k] = runLong(longCases[k]) }(k)
+	}
+	defer func() {
+		lw.Wait()
+		for k, c := range longCases {
+			rec.Case(ev.Hash(c), true, "long_lived_session")
+			rec.Sample("long_lived_session", c)
+			if longFails[k] != nil {
+				rec.Violation("long_lived_session", c, longFails[k].Msg)
+				t.Errorf("%s", longFails[k].Msg)
+			}
+		}
+	}()
 	// exhaustive single and double cuts of short streams
 	short := [][]Msg{
 		{{Kind: "tpl"}, {Kind: "data", NRec: 2}, {Kind: "data", NRec: 1}},
